@@ -374,6 +374,22 @@ def run_case(case):
                     elif restored:
                         viol('lenient-reply-restored-unexpected-set',
                              restored=restored, expected=sorted(set(expect)))
+        # frame: nothing but the selected entries' pairs and destinations
+        # (and parents created for them) may change
+        allowed = []
+        for e in ents:
+            ik, pk = trashworld.pair_keys(e)
+            allowed += [ik, pk, e['loc']]
+        stray = []
+        for k, x, y in snap.diff(s0, s1):
+            if any(k == a or k.startswith(a + '/') for a in allowed):
+                continue
+            if x is None and y is not None and y[0] == 'd' and \
+                    any(e['loc'].startswith(k + '/') for e in ents):
+                continue
+            stray.append((k, snap.fmt_entry(x), snap.fmt_entry(y)))
+        if stray:
+            viol('restore-changed-something-else', stray=stray[:6])
         # entries not listed must be untouched
         for e in ents:
             if w.abs(e['loc']) not in want:
